@@ -55,6 +55,11 @@ impl<'a> Reader<'a> {
     const fn current_ptr(&self) -> *const u8 {
         unsafe { self.buffer.as_ptr().add(self.off) }
     }
+
+    /// Number of bytes that were not read yet.
+    const fn remaining(&self) -> usize {
+        self.buffer.len() - self.off
+    }
 }
 
 /// The VBE Framebuffer information tag.
@@ -183,6 +188,12 @@ impl FramebufferTag {
                 let palette = {
                     // Ensure the slice can be created without causing UB
                     assert_eq!(mem::size_of::<FramebufferColor>(), 3);
+                    // The palette must be fully contained in the tag.
+                    let palette_bytes = num_colors as usize * mem::size_of::<FramebufferColor>();
+                    assert!(
+                        palette_bytes <= reader.remaining(),
+                        "Embedded framebuffer palette should be properly sized and available"
+                    );
 
                     unsafe {
                         slice::from_raw_parts(
